@@ -8,7 +8,9 @@ N_THOROUGH = 40000
 LEAN_MODULES = ["JSV.Props.C04"]
 SHRINK = False
 RULE = ("Go types of depth <= 4 over all documented kinds (composed with reflect in the harness, plus a bank of declared types for "
-        "named types, embedding by value / pointer, shadowing, marshaler types); per type 3 + n sampled values (zero with nil pointers "
+        "named types, embedding by value / pointer, shadowing, marshaler types); ~8% of the operations pass ForOptions.TypeSchemas with an "
+        "entry whose multi-valued `type` accepts the encodings of the overridden type, which occurs several times (by value, behind "
+        "pointers, in containers), after 0-2 earlier ForType calls with the same options object; per type 3 + n sampled values (zero with nil pointers "
         "and nil slices, the minima and the maxima of every sized kind, random) -> json.Marshal -> decode -> Validate against "
         "Resolve(ForType(T)) on the real package (the property observed directly); and ForType's schema = the model's. ~4% of types come "
         "from the classes of known findings D13-D16. Non-trivial: composite type; distinct = operation text")
@@ -21,6 +23,14 @@ def gen(rng, tier, n):
     ops = []
     while len(ops) < n:
         used = set()
+        if rng.random() < 0.08:
+            # TypeSchemas: entries that accept the encodings of the type they override (the hypothesis of infer_sound_table); the
+            # overridden type occurs several times, also behind pointers, and the options object has been used by earlier calls
+            t, warm, ts = gt.typeschemas_case(rng, used)
+            ops.append({"op": "infer-accepts", "args": {"type": t, "seed": rng.randint(0, 10**6), "n": 4 if tier == "quick" else 12,
+                                                        "opts": {"ignore": rng.random() < 0.2, "typeSchemas": ts}, "warm": warm},
+                        "meta": {"used": sorted(used), "nt": True, "ts": True}})
+            continue
         t = gt.gen_type(rng, rng.choice([1, 2, 3, 4 if tier == "thorough" else 3]), used)
         ops.append({"op": "infer-accepts", "args": {"type": t, "seed": rng.randint(0, 10**6), "n": 4 if tier == "quick" else 12},
                     "meta": {"used": sorted(used), "nt": t["k"] in ("struct", "slice", "array", "map", "ptr", "named")}})
